@@ -396,7 +396,7 @@ def check(case, ctx):
             for attr in ATTRS:
                 if attr == "children" and m.st[pid]["id"][0] == "E" and pid not in m.db:
                     continue
-                if not do_read(pid, attr, f"final read"):
+                if not do_read(pid, attr, "final read"):
                     break
         for k in flags:
             if flags[k]:
